@@ -20,5 +20,5 @@ MANIFEST = dict(
 
 def streams(tier, seed):
     if tier == "quick":
-        return [dict(tag="main", count=2500, seed=seed)]
+        return [dict(tag="main", count=8000, seed=seed)]
     return [dict(tag="main%d" % k, count=15000, seed=seed * 100 + k) for k in range(8)]
